@@ -130,6 +130,10 @@ class Ext(cpp2coq.Tr):
                     return [], "(nl_begin %s)" % self.tl(st[0]), "titer"
                 if m == "end" and not args:
                     return [], "End", "titer"
+                if m == "front" and not args:
+                    # front() is *begin() ([sequence.reqmts]); undefined on an empty list, as the dereference of end() is
+                    x = self.fresh("d")
+                    return ["do %s <- nl_deref %s (nl_begin %s);" % (x, self.tl(st[0]), self.tl(st[0]))], x, "nat"
                 if m == "emplace" and len(args) == 2:
                     b1, t1, k1 = self.E(args[0], st, env)
                     b2, t2, k2 = self.E(args[1], st, env)
@@ -165,6 +169,9 @@ class Ext(cpp2coq.Tr):
     def sbind(self, v, st, env):
         # auto& [a, b] = *it  for an iterator of the index
         names, init = list(v["n"]), v["a"]
+        if len(init) == 1 and init[0]["k"] == "ref":
+            # auto& [a, b] = x  for the item x of  for (auto& x : range): the base rule (the components of the pair)
+            return super().sbind(v, st, env)
         if len(init) != 1 or len(names) != 2 or init[0]["k"] != "op" or init[0]["n"] != "operator*":
             raise Unsupported("structured binding %s" % show(v)[:200])
         b, t, kd = self.E(init[0]["a"][0], st, env)
